@@ -482,3 +482,66 @@ def unit_apply_mask(timeout_ms=20000):
                             and cnd.args[0].args[0].args[0] is orig_mask[(i, j)]
                         eng.oblige(f"[{i},{j}]:conditions-are-the-powers-of-the-mask-on-the-common-operator-list", z3.BoolVal(okc), detail=repr(cnd)[:200])
     return run_unit("second_quantization:apply_mask_to_operator[2x2]", harness, functions=[(MODULE, "apply_mask_to_operator")], timeout_ms=timeout_ms)
+
+
+# ------------------------------------------------------------------------------------------------
+def unit_operator_diag_offdiag(variant, timeout_ms=20000):
+    """The `diag` / `offdiag` closures that block_diagonalize hands to the algorithm for operator-valued Hamiltonians.
+    variant 'dict': masks given by the user mark the terms to eliminate; variant 'list': masks derived from equal energies mark the terms to keep.
+    Contract: for a block without mask diag(x) = x and offdiag(x) = zero; otherwise the two are apply_mask_to_operator of the same value with the
+    same mask entry and opposite polarity (so, by the contract of filter_terms, complementary projections), diag being the kept part."""
+    ordinal = {"dict": 1, "list": 2}[variant]
+    d_node = frontend.find("block_diagonalization", f"block_diagonalize/diag#{ordinal}")
+    o_node = frontend.find("block_diagonalization", f"block_diagonalize/offdiag#{ordinal}")
+
+    def harness(eng):
+        eng.int_is_eq = True
+        from pyvc.models import ZERO
+        masks = {0: T("mask[0]"), 2: T("mask[2]")}
+        b = eng.fresh("block")
+        eng.assume(z3.And(b >= 0, b <= 3))
+        blk = next(v for v in (0, 1, 2, 3) if v == 3 or eng.branch(b == v))
+        x_zero = eng.fresh("x_is_zero", "bool")
+        through_series = eng.fresh("x_is_a_series", "bool")
+        val = ZERO if eng.branch(x_zero) else T("value")
+        calls = []
+
+        class Series(Model):
+            def m_isinstance(s, e, c):
+                return c == "BlockSeries"
+
+            def m_getitem(s, e, key):
+                s.key = key
+                return val
+        ser = Series()
+        x = ser if eng.branch(through_series) else val
+
+        def apply_mask(e, v, m, keep=True):
+            calls.append((v, m, keep))
+            return T("apply_mask", v, m, T("keep" if keep else "drop"))
+        name = "fully_diagonalize" if variant == "dict" else "keep"
+        env = Env(None, {name: masks})
+        eng.globals.update({"second_quantization": Namespace("second_quantization", {"apply_mask_to_operator": Builtin("apply_mask_to_operator", apply_mask)}),
+                            "zero": ZERO, "BlockSeries": TypeObj("BlockSeries")})
+        index = STup([blk, blk, SI(eng.fresh("order"))])
+        kept_polarity = "drop" if variant == "dict" else "keep"      # polarity with which diag selects the kept terms
+        for which, node in (("diag", d_node), ("offdiag", o_node)):
+            calls.clear()
+            res = eng.call(Closure(node, env, which), [x, index], {})
+            if blk not in masks:
+                if which == "diag":
+                    eng.oblige("diag:block-without-mask-is-kept-entirely", z3.BoolVal(res is val), detail=repr(res))
+                else:
+                    eng.oblige("offdiag:block-without-mask-has-nothing-to-eliminate", z3.BoolVal(res is ZERO), detail=repr(res))
+                eng.oblige(f"{which}:no-mask-applied-to-a-block-without-mask", z3.BoolVal(not calls))
+                continue
+            if val is ZERO:
+                eng.oblige(f"{which}:zero-stays-zero", z3.BoolVal(res is ZERO and not calls))
+                continue
+            pol = kept_polarity if which == "diag" else ("keep" if kept_polarity == "drop" else "drop")
+            ok = isinstance(res, T) and res.head == "apply_mask" and res.args[0] is val and res.args[1] is masks[blk] and res.args[2].head == pol
+            eng.oblige(f"{which}:value-filtered-by-the-mask-of-its-own-block-with-polarity-{pol}", z3.BoolVal(ok), detail=repr(res))
+            if x is ser:
+                eng.oblige(f"{which}:series-read-at-the-requested-index", z3.BoolVal(ser.key is index))
+    return run_unit(f"block_diagonalization:block_diagonalize/diag+offdiag[operator-valued,{variant} masks]", harness,
+                    functions=[("block_diagonalization", f"block_diagonalize/diag#{ordinal}"), ("block_diagonalization", f"block_diagonalize/offdiag#{ordinal}")], timeout_ms=timeout_ms)
